@@ -320,7 +320,10 @@ where
     }
     let rt = b.build().expect("runtime");
     let sh2 = sh.clone();
-    let res = rt.block_on(async move {
+    // a panic in the main future unwinds out of block_on: catch it here so that the run's choice tape,
+    // trace and counters (lent to the tasks) are handed back first - a violation without its tape cannot
+    // be replayed
+    let res = std::panic::catch_unwind(std::panic::AssertUnwindSafe(|| rt.block_on(async move {
         let t0 = tokio::time::Instant::now();
         if io {
             // tokio's paused clock jumps to the next timer on every park, also when the park delivered
@@ -339,13 +342,20 @@ where
             Ok(r) => r,
             Err(_) => Err(Violation::new("stuck", "watchdog", format!("no progress: the simulated-time watchdog ({watchdog_s} s) fired with all tasks blocked"))),
         }
-    });
+    })));
     drop(rt); // aborts and drops any task still alive (plexer loops)
-    let mut g = sh.lock().unwrap();
+    let mut g = sh.lock().unwrap_or_else(|e| e.into_inner());
     cx.ch = std::mem::replace(&mut g.ch, Choices::replay(vec![]));
     cx.tr = std::mem::replace(&mut g.tr, Trace::new(false));
     cx.st = std::mem::take(&mut g.st);
     drop(g);
+    let res = match res {
+        Ok(r) => r,
+        Err(payload) => match take_panic() {
+            Some((f, m)) => return Err(panic_violation(&f, &m)),
+            None => std::panic::resume_unwind(payload),
+        },
+    };
     if res.is_ok() {
         if let Some((f, m)) = take_panic() {
             return Err(panic_violation(&f, &m));
